@@ -144,6 +144,11 @@ class Watcher:
             self.stats["mixed_points"] += 1
 
 
+def w_orig_update(est):
+    """the estimator's own _update_weights (the watcher's wrapper belongs to the first fit only)"""
+    return type(est)._update_weights.__get__(est)
+
+
 @st.composite
 def fit_case(draw):
     s = draw(E.est_spec(classes=E.SPARSE, n_max=12, d_max=7, iter_max=6, k_max=3, hidden_max=3, lr=(0.5, 0.1, 0.01), d_min=2, n_min=4))
@@ -168,6 +173,24 @@ def oracle_fit(case):
                 return {"nontrivial": False, "classes": [s["cls"] + ":fit_raised"], "counts": {"fit_raised": 1},
                         "note": f"{type(e).__name__}: {e}"}
         w.history_point("after fit")
+        narrower = 0
+        d = X.shape[1]
+        if s.get("groups") and max(i for g in s["groups"] for i in g) < d - 1 and y is None:
+            # the same estimator, with the same declaration, on data with fewer features (all declared features still there):
+            # the partial list is completed with singletons for that width too
+            d2 = max(i for g in s["groups"] for i in g) + 1
+            est._update_weights = w_orig_update(est)
+            try:
+                est.fit(np.ascontiguousarray(X[:, :d2]))
+            except Exception as e:
+                raise Violation(f"{label}: after a fit on {d} features, fitting the same estimator (groups={s['groups']}) on the "
+                                f"first {d2} features raised {type(e).__name__}: {e}")
+            got = sorted(sorted(int(i) for i in g) for g in est.groups_)
+            want = sorted(sorted(g) for g in expected_groups(s["groups"], d2))
+            if got != want:
+                raise Violation(f"{label}: refitted on {d2} features, groups_ = {est.groups_}, expected the declared groups "
+                                f"completed by singletons {want}")
+            narrower = 1
     return {"nontrivial": bool(w.stats["mixed_points"]), "classes": [s["cls"], "groups:" + ("none" if s["groups"] is None else "yes"),
                                                                       "solver:" + s["solver"]], "counts": w.stats}
 
